@@ -20,6 +20,9 @@ CHECKS = {
  "C05": ("exploration", "exhaustive enumeration of a (start, dt, steps) lattice; grid labels compared with == against the Decimal grid on every channel",
          "Every (start, dt, n) of the lattice (n <= 40 quick, <= 400 thorough): timerange, run_scenarios df/dict/json, plot, stepwise session keys and session_results equal the exact decimal grid label by label; a step-counting stock returns i on every arithmetic route to grid point i.",
          "dt and start with finite decimal expansions only; the session is begun with the model's own start and dt.", "§4 C05"),
+ "C08": ("model_checking", "explicit-state BFS over edit/evaluate/reset/run histories (fixpoint reached) + stateless preemption-bounded exploration of the SdSimulation worker-thread schedules under a controlled scheduler (sys.settrace line points, baton)",
+         "(a) every history of equation/initial-value/constant edits, evaluations, cache resets and runs up to depth 5 (thorough 8, where the reachable state set closes) gives the values of a freshly evaluated reference model and identical reruns; (b) every schedule of the per-equation worker threads with <= 1 (thorough 2) preemptions at the source lines of Model.memoize, for 4 (6) request lists, yields a frame in which Y(t) = R(t) = Z(t) for a stochastic R.",
+         "Preemption only at source-line granularity inside Model.memoize; sd_simulation.Thread replaced by a controlled thread class; 2 grid times.", "§4 C08"),
  "C10": ("exploration", "exhaustive enumeration of ordered operand-shape pairs x operators x result holders against numpy",
          "All ordered pairs of operand kinds (number, scalar element, vectors, matrices up to 3x3 / 4x4, named vectors/matrices with equal and different names) x {+,-,*,/,dot} x holder {converter, flow, stock}, and all aggregates: accepted equations equal numpy entry by entry with exactly the expected shape; mismatched shapes/names must raise.",
          "numpy is the oracle; element-wise operators require equal shapes (no broadcasting between arrays); arr_size judged for vectors only.", "§4 C10"),
